@@ -659,6 +659,27 @@ Lemma items_nonempty_entries it l :
   flat_map entry_of (it :: l) = [] -> flat_map attr_of_item (it :: l) = [] -> False.
 Proof. destruct it; cbn; intros H1 H2; discriminate. Qed.
 
+Lemma value_ok_here W strict sub path d op x :
+  value_ok W strict sub path (SE d false op) (e_name d, false) x =
+  (if e_multi d then is_plist x
+   else if e_opt d then is_pnone x
+   else match e_type d with
+        | TBuiltin => is_pnone x
+        | TNamed ns n =>
+            match find_named W (ns, n) with
+            | Some (SComplex t') =>
+                match exp_members W t', exp_attrs W t' with
+                | [], [] => is_pnone x || is_empty_obj x
+                | _, _ => sub ((ns, n) :: path) t' x || (is_pnone x && (op || qn_in (ns, n) path))
+                end
+            | Some (SSimple _ _ vals) =>
+                is_pnone x ||
+                (negb strict && match vals with [] => false | _ => true end && is_property_none x)
+            | _ => is_pnone x
+            end
+        end).
+Proof. unfold value_ok. cbn [negb andb fst]. rewrite N.eqb_refl. reflexivity. Qed.
+
 Lemma members_mirror W :
   wf_names W = true ->
   forall fuel hist path t cls,
@@ -681,17 +702,18 @@ Proof.
       destruct (hid_in (o, i, d) hist) eqn:Eh.
       { apply hid_in_In in Eh. destruct (Hinv _ Eh) as [Hm [Ho [ns [n [Hty Hq]]]]]. cbn in *.
         unfold absent_ok. rewrite Hm, Ho, Hty, Hq. reflexivity. }
-      unfold value_ok. cbn [negb andb fst]. rewrite N.eqb_refl. cbn [andb].
-      destruct (e_multi d) eqn:Em; [reflexivity|].
+      destruct (e_multi d) eqn:Em.
+      { rewrite value_ok_here, Em. reflexivity. }
       unfold resolve_type. destruct (e_type d) as [|ns n] eqn:Ety.
-      { destruct (e_opt d); reflexivity. }
-      destruct (find_named W (ns, n)) as [[t'|sns sn vals|v|en|a|?|bn]|] eqn:Efn;
-        try (destruct (e_opt d); reflexivity).
+      { rewrite value_ok_here, Em, Ety. destruct (e_opt d); reflexivity. }
+      destruct (find_named W (ns, n)) as [[t'|sns sn vals|v|en|a| |bn]|] eqn:Efn;
+        try (rewrite value_ok_here, Em, Ety, Efn; destruct (e_opt d); reflexivity).
       * (* a complex type *)
         destruct (all_items W t') as [|it0 its0] eqn:Eit.
-        { destruct (e_opt d); [reflexivity|].
+        { rewrite value_ok_here, Em, Ety, Efn. destruct (e_opt d); [reflexivity|].
           rewrite exp_members_items, exp_attrs_items, Eit. reflexivity. }
-        destruct (e_opt d) eqn:Eo; [reflexivity|].
+        destruct (e_opt d) eqn:Eo.
+        { rewrite value_ok_here, Em, Eo. reflexivity. }
         assert (Hsub : mirrors W false ((ns, n) :: path) t'
                   (PObj (c_name t') (iter_items (ordering (it0 :: its0))
                                                  (members W f ((o, i, d) :: hist) t'))) = true).
@@ -704,14 +726,85 @@ Proof.
           - assert (remaining W ((o, i, d) :: hist) < remaining W hist).
             { apply remaining_cons; auto. eapply item_in_universe; eauto. }
             lia. }
+        rewrite value_ok_here, Em, Eo, Ety, Efn.
         rewrite exp_members_items, exp_attrs_items, Eit.
         destruct (flat_map entry_of (it0 :: its0)) eqn:E1.
         { destruct (flat_map attr_of_item (it0 :: its0)) eqn:E2.
           - exfalso. eapply items_nonempty_entries; eauto.
-          - rewrite Hsub. reflexivity. }
-        rewrite Hsub. reflexivity.
+          - apply orb_true_iff. left. exact Hsub. }
+        apply orb_true_iff. left. exact Hsub.
       * (* a simple type *)
-        destruct vals as [|v vs]; [destruct (e_opt d); reflexivity|].
-        destruct (e_opt d); [reflexivity|]. cbn. reflexivity.
-  - split; reflexivity.
+        destruct vals as [|v vs].
+        { rewrite value_ok_here, Em, Ety, Efn. destruct (e_opt d); reflexivity. }
+        destruct (e_opt d) eqn:Eo.
+        { rewrite value_ok_here, Em, Eo. reflexivity. }
+        rewrite value_ok_here, Em, Eo, Ety, Efn. reflexivity.
+Qed.
+
+Lemma inv_nil path : inv [] path.
+Proof. intros h []. Qed.
+
+Lemma build_fuel_enough W hist : remaining W hist < build_fuel W.
+Proof. unfold build_fuel. pose proof (remaining_le W hist). lia. Qed.
+
+Lemma create_mirrors_type_l W t :
+  wf_names W = true -> In t (w_types W) ->
+  mirrors W false [qn_of t] t (build_root W (SComplex t)) = true.
+Proof.
+  intros Hwf Ht. cbn [build_root]. apply members_mirror; auto.
+  - apply inv_nil.
+  - apply build_fuel_enough.
+Qed.
+
+(* ------------------------------------------------------------------ *)
+(* fuel suffices                                                       *)
+(* ------------------------------------------------------------------ *)
+Lemma process_all_ext W rec1 rec2 hist items data :
+  (forall it, In it items -> member_value W rec1 hist it = member_value W rec2 hist it) ->
+  process_all W rec1 hist items data = process_all W rec2 hist items data.
+Proof.
+  revert data. induction items as [|it r IH]; intros data H; [reflexivity|].
+  cbn. unfold process_with. rewrite (H it (or_introl eq_refl)). apply IH.
+  intros it' Hi. apply H. right. exact Hi.
+Qed.
+
+Lemma resolve_type_complex_in W ty t : resolve_type W ty = RC t -> In t (w_types W).
+Proof.
+  unfold resolve_type. destruct ty as [|ns n]; [discriminate|].
+  destruct (find_named W (ns, n)) as [[t'|sns sn vals|v|en|a| |bn]|] eqn:E; try discriminate.
+  intro H. inversion H; subst. eapply find_named_complex_in; eauto.
+Qed.
+
+Lemma members_fuel W :
+  forall f1 f2 hist t, In t (w_types W) ->
+    remaining W hist < f1 -> remaining W hist < f2 ->
+    members W f1 hist t = members W f2 hist t.
+Proof.
+  induction f1 as [|f1 IH]; intros f2 hist t Ht H1 H2; [lia|].
+  destruct f2 as [|f2]; [lia|].
+  change (members W (Datatypes.S f1) hist t)
+    with (process_all W (members W f1) hist (all_items W t) (add_attrs (all_items W t) [])).
+  change (members W (Datatypes.S f2) hist t)
+    with (process_all W (members W f2) hist (all_items W t) (add_attrs (all_items W t) [])).
+  apply process_all_ext. intros it Hit.
+  unfold member_value. destruct it as [o i d ch op| |a]; auto.
+  destruct ch; auto. destruct (hid_in (o, i, d) hist) eqn:Eh; auto.
+  destruct (e_multi d); auto.
+  destruct (resolve_type W (e_type d)) as [|t'|n vals] eqn:Er; auto.
+  destruct (all_items W t') as [|it0 its0] eqn:Eit; auto.
+  destruct (e_opt d); auto.
+  assert (remaining W (((o, i, d) : hid) :: hist) < remaining W hist).
+  { apply remaining_cons; auto. eapply item_in_universe; eauto. }
+  rewrite (IH f2 (((o, i, d) : hid) :: hist) t'); auto; try lia.
+  eapply resolve_type_complex_in; eauto.
+Qed.
+
+(* more fuel than build_fuel changes nothing: the cut-off, not the fuel, ends the recursion *)
+Lemma build_fuel_sufficient_l W t extra :
+  In t (w_types W) ->
+  members W (build_fuel W + extra) [] t = members W (build_fuel W) [] t.
+Proof.
+  intro Ht. apply members_fuel; auto.
+  - pose proof (build_fuel_enough W []). lia.
+  - apply build_fuel_enough.
 Qed.
